@@ -1059,6 +1059,15 @@ pub fn populate_periodic_table(table: &mut PeriodicTable) {
         },
     );
     elt.isotopes.insert(
+        54,
+        Isotope {
+            mass: 53.939609,
+            abundance: 0.058450,
+            neutrons: 54,
+            neutron_shift: -2,
+        },
+    );
+    elt.isotopes.insert(
         56,
         Isotope {
             mass: 55.934937,
